@@ -316,8 +316,10 @@ def origins(f, d, depth=0, seen=None):
                     strip(e['l']).get('k') == 'var' and strip(e['l'])['n'] == d['n'] and \
                     e.get('r') is not None:
                 defs.append(e['r'])
+        defs = [x for x in defs if not (isinstance(strip(x), dict) and strip(x).get('k') == 'ctor'
+                                        and not strip(x).get('args'))]
         if not defs:
-            return [d]
+            return [d]          # e.g. a local container: it is its own origin (filled by mutation)
         for x in defs:
             out += origins(f, x, depth + 1, seen)
         return out
